@@ -154,6 +154,31 @@ pub fn gen_tiny_entry(rng: &mut Rng) -> AEntry {
     }
 }
 
+/// a file whose list response consists of `n` entries of exactly the 8-byte wire minimum (`77 01 01 01 01 01 01 01` in
+/// the minimal encoding) inside a message with empty ids, optionally followed by a close message: every "an entry /
+/// a message needs at least k bytes" estimate in a parser is exact or wrong on these
+pub fn gen_min_list_file(n_entries: usize, with_close: bool) -> AFile {
+    let e = AEntry { obj_name: vec![], status: None, val_time: None, unit: None, scaler: None, value: AValue::Bytes(vec![]), value_signature: None };
+    let mut messages = vec![AMsg {
+        transaction_id: vec![],
+        group_no: 0,
+        abort_on_error: 0,
+        body: ABody::GetList(AGetList {
+            client_id: None,
+            server_id: vec![],
+            list_name: None,
+            act_sensor_time: None,
+            val_list: vec![e; n_entries],
+            list_signature: None,
+            act_gateway_time: None,
+        }),
+    }];
+    if with_close {
+        messages.push(AMsg { transaction_id: vec![], group_no: 0, abort_on_error: 0, body: ABody::Close(AClose { global_signature: None }) });
+    }
+    AFile { messages }
+}
+
 pub fn gen_list_len(rng: &mut Rng, max: usize) -> usize {
     let n = match rng.below(12) {
         0 => 0,
